@@ -120,6 +120,9 @@ def lib_raisers():
             "self.priority.remove_stream": ([PRI("MissingStreamError")], "priority.py remove_stream"),
             "next(self.priority)": ([PRI("DeadlockError")], "priority.py __next__: nothing unblocked"),
         },
+        ("protocol.ws_stream", "Handshake"): {
+            "split_comma_header": (["builtins.UnicodeDecodeError"], "wsproto/utilities.py split_comma_header decodes every piece as ASCII: an obs-text byte in Connection / Sec-WebSocket-Protocol / -Extensions raises"),
+        },
         ("protocol.ws_stream", "WSStream"): {
             "self.connection.send": ([lib_class("wsproto.utilities", "LocalProtocolError")], "wsproto/connection.py send: event illegal in the connection state"),
         },
